@@ -296,6 +296,15 @@ class PymbolicToASTMapper(CachedMapper):
         return self._map_multi_children_op(expr.children, ast.Mult())
 
     def map_constant(self, expr: ScalarT) -> ast.expr:
+        try:
+            import numpy
+        except ImportError:
+            pass
+        else:
+            if isinstance(expr, numpy.generic):
+                # ast.Constant only takes Python's own number types
+                expr = expr.item()
+
         if isinstance(expr, bool):
             return ast.NameConstant(expr)
         elif isinstance(expr, (int, float)) and expr < 0:
